@@ -42,6 +42,7 @@ class EntryTracer:
     def __init__(self, mode, n=None, func=None, k=None, exc=None):
         self.exc = InjectedInterrupt if exc == 'base' else InjectedFault
         self.cleanup = lib.cleanup_lines()
+        self.inventory = lib.f5_inventory()
         self.skipped = 0
         self.prefix = lib.lib_prefix()
         self.plen = len(self.prefix)
@@ -91,11 +92,15 @@ class EntryTracer:
 
 
 def _eligible(self, frame):
-    """F5 is delivered only at fresh entries of ordinary functions, and never while
-    any library frame on the stack is inside a `finally:` body or an `except` handler
-    (or while a generator-based / class-based context manager is being left)."""
+    """F5 is delivered only at fresh entries of ordinary functions that the pinned tree
+    already had (sim/f5_inventory.json), and never while any library frame on the stack is
+    inside a `finally:` body or an `except` handler (or while a generator-based /
+    class-based context manager is being left)."""
     code = frame.f_code
     if code.co_flags & 0x2A0:      # CO_GENERATOR | CO_COROUTINE | CO_ASYNC_GENERATOR
+        return False
+    if (code.co_filename[self.plen:], code.co_qualname) not in self.inventory:
+        # a function the pinned tree did not have: it may be the cleanup code itself
         return False
     if code.co_name in ('__exit__', '__aexit__', '__del__', '__enter__'):
         return False
